@@ -29,7 +29,7 @@ for d in dirs:
         print(os.path.basename(d), "patch no longer applies"); continue
     try:
         if a.lane:
-            meta.pop("detection", None)
+            meta.setdefault("checks", {}).update(meta.pop("detection", {}))      # keep the latest recorded outcome of the checks not re-run now
             meta["what_i_ran"] = ("confirmed earlier in the sub-agent's scratch worktree (applies, builds, 339 tests pass, demo differs); this run: patch applied to a pristine "
                                   "copy of /repo's HEAD handed to the checks as SEED_REPO; ./check <ids> --tier quick")
         det = meta.setdefault("checks" if a.lane else "detection", {})
